@@ -106,7 +106,10 @@ var c06ExprFaults = []faultKind{
 }
 
 var c06StmtFaults = []string{"redecl", "redecl-list", "redecl-nil", "redecl-uninit", "redecl-noreturn", "redecl-param", "redecl-nil-param", "redecl-funcname", "redecl-self", "shadow-builtin-call",
-	"break", "continue", "return", "returnval", "return-multiline", "break-in-func", "continue-in-func", "break-in-func-if"}
+	"break", "continue", "return", "returnval", "return-multiline", "break-in-func", "continue-in-func", "break-in-func-if",
+	// a call site inside a helper, used first with a callee it suits, then with one it does not
+	// (whatever a site remembers about its first callee must not excuse the second)
+	"warm1-user-clock", "warm1-builtin-clock", "warm1-user-h2", "warm1-builtin-pow", "warm1-user-array", "warm0-clock-h1", "warm0-user-abs", "warm0-clock-nil"}
 
 var c06StmtCtx = []string{"expr", "print", "var", "assign", "varlist", "return", "if-cond", "while-cond", "for-init", "for-cond", "for-inc", "elseif-cond",
 	"ml-binary", "ml-call", "ml-array", "ml-object", "ml-cond"}
@@ -412,6 +415,24 @@ func (e *skEmit) emitFault(n *skNode, ind int) {
 			e.add(ind+1, fmt.Sprintf("%s \"after%d\";", KwPrint, t))
 			e.add(ind, "}")
 			e.add(ind, fmt.Sprintf("sh%d(5);", t))
+		case "warm1-user-clock", "warm1-builtin-clock", "warm1-user-h2", "warm1-builtin-pow", "warm1-user-array", "warm0-clock-h1", "warm0-user-abs", "warm0-clock-nil":
+			parts := strings.Split(f.Stmt, "-")
+			good := map[string]string{"user": "h1", "builtin": FnAbs, "clock": FnClock}[parts[1]]
+			bad := map[string]string{"clock": FnClock, "h2": "h2", "pow": FnPow, "array": "arr0", "h1": "h1", "abs": FnAbs, "nil": "nil"}[parts[2]]
+			arg := "1"
+			if parts[0] == "warm0" {
+				arg = ""
+				if parts[1] == "user" {
+					e.add(ind, fmt.Sprintf("%s wz%d() { %s 0; }", KwFun, t, KwReturn))
+					good = fmt.Sprintf("wz%d", t)
+				}
+			}
+			e.add(ind, fmt.Sprintf("%s ws%d(f) {", KwFun, t))
+			n.Line = e.add(ind+1, fmt.Sprintf("%s f(%s);", KwReturn, arg))
+			e.add(ind, "}")
+			e.add(ind, fmt.Sprintf("ws%d(%s);", t, good))
+			e.add(ind, fmt.Sprintf("ws%d(%s);", t, good))
+			e.add(ind, fmt.Sprintf("ws%d(%s);", t, bad))
 		case "return-multiline":
 			n.Line = e.add(ind, KwReturn+" (\n  5 +\n  6\n);")
 		case "break-in-func", "continue-in-func", "break-in-func-if":
@@ -1023,7 +1044,7 @@ func c06Systematic(tier string) []*Case {
 	// statement-kind faults x enclosing constructs where they are faults
 	for _, st := range c06StmtFaults {
 		for _, enc := range encl {
-			stray := !strings.HasPrefix(st, "redecl") && !strings.Contains(st, "-in-func") && st != "shadow-builtin-call"
+			stray := !strings.HasPrefix(st, "redecl") && !strings.Contains(st, "-in-func") && st != "shadow-builtin-call" && !strings.HasPrefix(st, "warm")
 			if strings.HasPrefix(st, "return") && (enc == "while" || enc == "for" || enc == "while-true" || enc == "for-nocond") {
 				stray = false // a return inside a top-level loop is stray as well: keep it
 			}
@@ -1053,6 +1074,15 @@ func c06Systematic(tier string) []*Case {
 			plan.fault.Wraps = []string{c06Wraps[i%len(c06Wraps)]}
 		}
 		out = append(out, c06Case(plan, zeroSrc{}, 0, "table:operator-misuse"))
+	}
+	// every confirmed misuse of a run-time-built non-numeric string as an operand
+	for i, expr := range c06StringOperandMisuse {
+		chains := [][]string{nil, {"for"}, {"func-print"}, {"if-else", "while"}, {"func-rec"}}
+		plan := c06Plan{chain: chains[i%len(chains)], fault: skFault{Kind: "string-operand-misuse", Expr: expr, Ctx: c06StmtCtx[i%5], Probe: c06Probes[i%3]}}
+		if i%3 == 0 {
+			plan.fault.Wraps = []string{c06Wraps[i%len(c06Wraps)]}
+		}
+		out = append(out, c06Case(plan, zeroSrc{}, 0, "table:string-operand-misuse"))
 	}
 	// faults whose operand is a value that contains itself (anything that renders the
 	// operand for the diagnostic must cope): run in processes of their own
@@ -1146,6 +1176,18 @@ func c06Random(s Src, tier string) *Case {
 		cfg := scriptCfg(prog, c06Stdin(40))
 		cfg.TTY = drawTTY(s)
 		cs.Runs = []Run{{Role: "run", Cfg: cfg}}
+		cs.Aux = &Aux{C06: &C06Expect{}}
+		return cs
+	}
+	if Chance(s, "valid", 1, 5) {
+		// a program that is valid by construction (typed generation, validprog.go):
+		// no diagnostic, status 0, termination
+		prog, inputs := validProgram(s)
+		cs := &Case{Prop: "C06", Kind: "clean", Sig: "clean:valid-by-construction", Program: prog, FaultKind: "none"}
+		cfg := scriptCfg(prog, c06Stdin(inputs+2))
+		cfg.Budget = 30000000
+		cfg.TTY = drawTTY(s)
+		cs.Runs = []Run{{Role: "clean", Cfg: cfg}}
 		cs.Aux = &Aux{C06: &C06Expect{}}
 		return cs
 	}
@@ -1334,7 +1376,7 @@ func c06Eval(cs *Case, ctx *EvalCtx) []Violation {
 			add(0, "no-termination", "step budget exceeded")
 		case o.FirstErr >= 0 || o.ExitStatus() != 0:
 			add(0, "clean-program-diagnostic", fmt.Sprintf("a program that performs no invalid operation wrote %q / exit %d", o.Stderr, o.ExitStatus()))
-		case o.Stdout != *cs.ExpectStdout:
+		case cs.ExpectStdout != nil && o.Stdout != *cs.ExpectStdout:
 			// not C06's claim (it only demands: no diagnostic, status 0): noted, not judged
 			if ctx.Stats != nil {
 				ctx.Stats.Count("info.clean_program_stdout_differs_from_prediction", 1)
